@@ -13,13 +13,26 @@ Definition oracle_cmp (a b : gval) (ta tb : string) : option Z :=
   | _, _ => None
   end.
 
-Definition check (i : gval * gval * (string * string)) (o : Z) : N :=
+(* sort.go Compare (the ORDER BY comparator of package genql) on the two one-key rows {k:a}, {k:b}: a NULL first
+   key is never "less", a NULL second key always is, otherwise "less" is compare.Compare = -1 (ASC) / = 1 (DESC).
+   Observed as 0 false / 1 true / 2 error, for ASC and DESC.  This ties the engine's use of the comparison
+   to the exact integer-aware order for every Go numeric kind, which JSON-like (float64) tables cannot reach. *)
+Definition sort_expect (a b : gval) (z : Z) : Z * Z :=
+  match a, b with
+  | GNil, _ => (0, 0)
+  | _, GNil => (1, 1)
+  | _, _ => ((if z =? -1 then 1 else 0), (if z =? 1 then 1 else 0))
+  end.
+
+Definition check (i : gval * gval * (string * string)) (o : Z * (Z * Z)) : N :=
   let '(a, b, (ta, tb)) := i in
+  let '(o1, (sa, sd)) := o in
+  let sort_ok (z : Z) := let '(ea, ed) := sort_expect a b z in (ea =? sa) && (ed =? sd) in
   match Compare a b with
-  | Ok z => code_of (z =? o) (spec_holds a b o)
+  | Ok z => code_of ((z =? o1) && sort_ok z) (spec_holds a b o1)
   | OutOfModel =>
       match oracle_cmp a b ta tb with
-      | Some z => if z =? o then 0%N else 3%N
+      | Some z => if (z =? o1) && sort_ok z then 0%N else 3%N
       | None => 4%N
       end
   | _ => 1%N
